@@ -473,4 +473,118 @@ theorem holdsM2_final (pre : Nat) (pcs : List MPc) (h : ∀ p ∈ pcs, p = MPc.r
   · simp [disposeAllSeq, hnd, hp, holdsM2, rmObs]; omega
   · simp [disposeAllSeq, hnd, hp, holdsM2, rmObs]; omega
 
+/-! ## ResourceManager.DisposeWithTimeout -/
+
+/-- Which program points each of the four threads can be at, and what a finished thread has left
+behind. -/
+structure HInv (c : Cfg HShared HPc) : Prop where
+  len : c.ths.length = 4
+  t0 : ∀ l, c.ths[0]? = some l → (l = HPc.unblock ∨ (l = HPc.done ∧ c.sh.released = true))
+  t1 : ∀ l, c.ths[1]? = some l → (l = HPc.timer ∨ (l = HPc.done ∧ c.sh.deadline = true))
+  t2 : ∀ l, c.ths[2]? = some l → (l = HPc.callWait ∨ l = HPc.done)
+  t3 : ∀ l, c.ths[3]? = some l →
+    ((l = HPc.wDispose ∧ c.sh.disposed = 0) ∨ (l = HPc.wSend ∧ c.sh.disposed = 1) ∨ (l = HPc.done ∧ c.sh.disposed = 1))
+
+theorem hInv_init : HInv hInit := by
+  refine ⟨rfl, ?_, ?_, ?_, ?_⟩ <;> intro l h <;> simp [hInit] at h <;> subst h <;> simp [hInit]
+
+theorem hInv_step (c : Cfg HShared HPc) (i : Nat) (hc : HInv c) : HInv (stepAt (hProg true) c i) := by
+  apply inv_stepAt_of_local (hProg true) HInv c i hc
+  intro l hl
+  obtain ⟨hlen, h0, h1, h2, h3⟩ := hc
+  obtain ⟨sh, ths⟩ := c
+  simp only at hlen h0 h1 h2 h3 hl
+  match ths, hlen with
+  | [a, b, c', d], _ =>
+    obtain ⟨released, deadline, disposed, offered, taken, timedOut⟩ := sh
+    simp only [List.getElem?_cons_zero, List.getElem?_cons_succ, Option.some.injEq, forall_eq'] at h0 h1 h2 h3
+    match i with
+    | 0 =>
+      simp only [List.getElem?_cons_zero, Option.some.injEq] at hl; subst hl
+      rcases h0 with rfl | ⟨rfl, hr⟩
+      · refine ⟨rfl, ?_, ?_, ?_, ?_⟩ <;> intro x hx <;> simp [hProg, hStep] at hx ⊢ <;> subst hx <;> simp_all
+      · refine ⟨rfl, ?_, ?_, ?_, ?_⟩ <;> intro x hx <;> simp [hProg, hStep] at hx ⊢ <;> subst hx <;> simp_all
+    | 1 =>
+      simp only [List.getElem?_cons_succ, List.getElem?_cons_zero, Option.some.injEq] at hl; subst hl
+      rcases h1 with rfl | ⟨rfl, hr⟩
+      · refine ⟨rfl, ?_, ?_, ?_, ?_⟩ <;> intro x hx <;> simp [hProg, hStep] at hx ⊢ <;> subst hx <;> simp_all
+      · refine ⟨rfl, ?_, ?_, ?_, ?_⟩ <;> intro x hx <;> simp [hProg, hStep] at hx ⊢ <;> subst hx <;> simp_all
+    | 2 =>
+      simp only [List.getElem?_cons_succ, List.getElem?_cons_zero, Option.some.injEq] at hl; subst hl
+      rcases h2 with rfl | rfl
+      · simp only [hProg, hStep]
+        split
+        · refine ⟨rfl, ?_, ?_, ?_, ?_⟩ <;> intro x hx <;> simp at hx ⊢ <;> subst hx <;> simp_all
+        · split
+          · refine ⟨rfl, ?_, ?_, ?_, ?_⟩ <;> intro x hx <;> simp at hx ⊢ <;> subst hx <;> simp_all
+          · refine ⟨rfl, ?_, ?_, ?_, ?_⟩ <;> intro x hx <;> simp at hx ⊢ <;> subst hx <;> simp_all
+      · refine ⟨rfl, ?_, ?_, ?_, ?_⟩ <;> intro x hx <;> simp [hProg, hStep] at hx ⊢ <;> subst hx <;> simp_all
+    | 3 =>
+      simp only [List.getElem?_cons_succ, List.getElem?_cons_zero, Option.some.injEq] at hl; subst hl
+      rcases h3 with ⟨rfl, hd⟩ | ⟨rfl, hd⟩ | ⟨rfl, hd⟩
+      · simp only [hProg, hStep]
+        split
+        · refine ⟨rfl, ?_, ?_, ?_, ?_⟩ <;> intro x hx <;> simp at hx ⊢ <;> subst hx <;> simp_all
+        · refine ⟨rfl, ?_, ?_, ?_, ?_⟩ <;> intro x hx <;> simp at hx ⊢ <;> subst hx <;> simp_all
+      · refine ⟨rfl, ?_, ?_, ?_, ?_⟩ <;> intro x hx <;> simp [hProg, hStep] at hx ⊢ <;> subst hx <;> simp_all
+      · refine ⟨rfl, ?_, ?_, ?_, ?_⟩ <;> intro x hx <;> simp [hProg, hStep] at hx ⊢ <;> subst hx <;> simp_all
+    | n + 4 => simp at hl
+
+theorem h_dec (c : Cfg HShared HPc) (i : Nat) :
+    stepAt (hProg true) c i = c ∨ hMu (stepAt (hProg true) c i) < hMu c := by
+  cases hl : c.ths[i]? with
+  | none => left; exact stepAt_none _ _ _ hl
+  | some l =>
+    cases l with
+    | done => left; exact stepAt_eq_of_same _ c i _ hl rfl
+    | unblock => right; exact mu_lt_of_weight _ hWeight c i _ hl (by simp [hProg, hStep, hWeight])
+    | timer => right; exact mu_lt_of_weight _ hWeight c i _ hl (by simp [hProg, hStep, hWeight])
+    | wSend => right; exact mu_lt_of_weight _ hWeight c i _ hl (by simp [hProg, hStep, hWeight])
+    | callWait =>
+      by_cases h1 : (c.sh.offered && !c.sh.taken) = true
+      · right; exact mu_lt_of_weight _ hWeight c i _ hl (by simp [hProg, hStep, hWeight, h1])
+      · by_cases h2 : c.sh.deadline = true
+        · right; exact mu_lt_of_weight _ hWeight c i _ hl (by simp [hProg, hStep, hWeight, h1, h2])
+        · left; exact stepAt_eq_of_same _ c i _ hl (by simp [hProg, hStep, h1, h2])
+    | wDispose =>
+      by_cases h1 : c.sh.released = true
+      · right; exact mu_lt_of_weight _ hWeight c i _ hl (by simp [hProg, hStep, hWeight, h1])
+      · left; exact stepAt_eq_of_same _ c i _ hl (by simp [hProg, hStep, h1])
+    | wSending =>
+      by_cases h1 : c.sh.taken = true
+      · right; exact mu_lt_of_weight _ hWeight c i _ hl (by simp [hProg, hStep, hWeight, h1])
+      · left; exact stepAt_eq_of_same _ c i _ hl (by simp [hProg, hStep, h1])
+
+/-- **DisposeWithTimeout with the buffered result channel, every schedule** (deadline before or
+after the disposal, the slow resource unblocked at any time): every thread ends — in particular
+the helper goroutine — and the resource was disposed exactly once. -/
+theorem holdsH_final (s : Schedule) : holdsH (hObs (hFinal true s)) = true := by
+  have hinv : HInv (hFinal true s) := inv_run _ _ hInv_step _ _ hInv_init
+  have hq : Quiescent (hProg true) (hFinal true s) := by
+    unfold hFinal
+    rw [run_append]
+    apply rounds_quiescent _ (fun _ => True) hMu 4 (fun _ _ _ => trivial) (fun c i _ => h_dec c i)
+    · trivial
+    · rw [run_length]; simp [hInit]
+    · refine Nat.le_trans (mu_run_le _ (fun _ => True) hMu (fun _ _ _ => trivial) (fun c i _ => h_dec c i) _ _ trivial) ?_
+      simp [hMu, hInit, hWeight]
+  generalize hFinal true s = c at hinv hq
+  obtain ⟨hlen, h0, h1, h2, h3⟩ := hinv
+  obtain ⟨sh, ths⟩ := c
+  simp only at hlen h0 h1 h2 h3
+  match ths, hlen with
+  | [a, b, c', d], _ =>
+    simp only [List.getElem?_cons_zero, List.getElem?_cons_succ, Option.some.injEq, forall_eq'] at h0 h1 h2 h3
+    -- thread 0 is done (it can always move), hence released; so the worker is past its dispose
+    have ha : a = HPc.done ∧ sh.released = true := by
+      rcases h0 with rfl | h
+      · exact absurd (hq 0) (stepAt_ne_of_local _ _ 0 _ rfl (by simp [hProg, hStep]))
+      · exact h
+    have hd : d = HPc.done ∧ sh.disposed = 1 := by
+      rcases h3 with ⟨rfl, _⟩ | ⟨rfl, _⟩ | h
+      · exact absurd (hq 3) (stepAt_ne_of_local _ _ 3 _ rfl (by simp [hProg, hStep, ha.2]))
+      · exact absurd (hq 3) (stepAt_ne_of_local _ _ 3 _ rfl (by simp [hProg, hStep]))
+      · exact h
+    simp [holdsH, hObs, hd.1, hd.2]
+
 end Tunnox.C16
